@@ -562,6 +562,14 @@ class CSSStyleSheet(cssutils.stylesheets.StyleSheet):
             rule._parentStyleSheet = None  # detach
             del self._cssRules[index]  # delete from StyleSheet
 
+    def _indexBehindLast(self, types):
+        "Return index behind the last rule with one of `types`, else 0."
+        index = 0
+        for i, r in enumerate(self._cssRules):
+            if r.type in types:
+                index = i + 1
+        return index
+
     def insertRule(self, rule, index=None, inOrder=False, _clean=True):  # noqa: C901
         """
         Used to insert a new rule into the style sheet. The new rule now
@@ -755,8 +763,11 @@ class CSSStyleSheet(cssutils.stylesheets.StyleSheet):
                             index = len(self._cssRules) - i
                             break
                 else:
-                    # find first point to insert
-                    for i, r in enumerate(self._cssRules):
+                    # find first point to insert, behind any @charset or @import
+                    start = self._indexBehindLast(
+                        (rule.CHARSET_RULE, rule.IMPORT_RULE)
+                    )
+                    for i, r in enumerate(self._cssRules[start:], start):
                         if r.type in (
                             r.VARIABLES_RULE,
                             r.MEDIA_RULE,
@@ -768,6 +779,8 @@ class CSSStyleSheet(cssutils.stylesheets.StyleSheet):
                         ):
                             index = i  # before these
                             break
+                    else:
+                        index = len(self._cssRules)
             else:
                 # after @charset and @import
                 for r in self._cssRules[index:]:
@@ -814,8 +827,12 @@ class CSSStyleSheet(cssutils.stylesheets.StyleSheet):
                             index = len(self._cssRules) - i
                             break
                 else:
-                    # find first point to insert
-                    for i, r in enumerate(self._cssRules):
+                    # find first point to insert, behind any @charset, @import
+                    # or @namespace
+                    start = self._indexBehindLast(
+                        (rule.CHARSET_RULE, rule.IMPORT_RULE, rule.NAMESPACE_RULE)
+                    )
+                    for i, r in enumerate(self._cssRules[start:], start):
                         if r.type in (
                             r.MEDIA_RULE,
                             r.PAGE_RULE,
@@ -826,6 +843,8 @@ class CSSStyleSheet(cssutils.stylesheets.StyleSheet):
                         ):
                             index = i  # before these
                             break
+                    else:
+                        index = len(self._cssRules)
             else:
                 # after @charset @import @namespace
                 for r in self._cssRules[index:]:
